@@ -1,5 +1,14 @@
 (* C02 — parsed components are the exact RFC 3986 sub-ranges of the input.
-   Statements only.  (Work in progress: see Proofs/ParseData.v.) *)
-From Coq Require Import List NArith.
-From UP Require Import Base.Chars Base.Regex Model.Uri Model.Ip4 Model.Parse Spec.Rfc3986 Spec.Split.
+   Statements only; proofs in Proofs/ParseData.v.  The statements are about the model parser
+   (Model/Parse.v); the correspondence with src/UriParse.c is checked by gen/c02.py. *)
+From Coq Require Import List NArith Bool String.
+From UP Require Import Base.Chars Model.Uri Model.Ip4 Model.Parse Spec.Unparse Proofs.ParseData.
 Import ListNotations.
+
+(* The components reported, written one after the other with nothing but their delimiters in
+   between (scheme ":", "//" userinfo "@" host ":" port, "/"-separated segments, "?" query,
+   "#" fragment; IP literals between brackets), are the input: each component is a sub-range of
+   the input, the sub-ranges are in order and they leave out the delimiters only. *)
+Theorem C02_unparse : forall s u, parse s = POk u -> unparse u = s.
+Proof. exact parse_unparse. Qed.
+Print Assumptions C02_unparse.
